@@ -10,6 +10,8 @@ package query
 //verif:setup VerifC02Setup2
 //verif:setup VerifC02Setup3
 //verif:harness VerifC02ManyRecords mode=bv tier=quick
+//verif:setup VerifC02Setup4
+//verif:harness VerifC02HeaderAndDialect mode=bv tier=quick split=4
 //verif:harness VerifC02RetriedCommit mode=bv tier=quick split=4
 
 import (
@@ -278,3 +280,110 @@ func VerifC02ManyRecords() {
 	verifReach("end")
 }
 
+
+var verifC02Hdr [2][]parser.Statement
+var verifC02HdrSel [2][]parser.Statement
+var verifC02Dialect, verifC02DialectSel []parser.Statement
+
+func VerifC02Setup4() {
+	for i, name := range []string{"`h.csv`", "`h.tsv`"} {
+		verifC02Hdr[i] = verifParse("create table " + name + " (c1, c2); insert into " + name + " values ('p', 'q'); commit;")
+		verifC02HdrSel[i] = verifParse("select * from " + name + ";")
+	}
+	verifC02Dialect = verifParse("update d set b = @c where a = 1; commit;")
+	verifC02DialectSel = verifParse("select a, b from d;")
+}
+
+// (a) The header is data as well: a column whose name is 1..2 symbolic bytes over the special
+// characters (set on the cached table, written by COMMIT) reads back under the same name, or the
+// write is refused.  (b) An updated file keeps its line break: a CRLF table stays a CRLF table down to
+// its last byte.
+func VerifC02HeaderAndDialect() {
+	if verifChoice("part", 2) == 0 {
+		format := verifChoice("format", 2)
+		n := 1 + verifChoice("len", 2)
+		b := make([]byte, n)
+		for i := range b {
+			c := verifByte("h")
+			ok := verifOr(verifOr(verifOr(c == ',', c == '"'), verifOr(c == '\n', c == '\r')), verifOr(verifOr(c == '\t', c == ' '), verifOr(c == 'a', c == '1')))
+			verifAssume(ok)
+			b[i] = c
+		}
+		name := string(b)
+		file := [2]string{"h.csv", "h.tsv"}[format]
+		tx := verifNewTx()
+		tx.Flags.Quiet = true
+		proc := NewProcessor(tx)
+		// CREATE + INSERT, then rename the column on the cached view (what ALTER TABLE RENAME does
+		// after parsing the new name), then COMMIT
+		_, err := proc.Execute(verifCtx(), verifC02Hdr[format][:2])
+		verifAssert("create and insert", err == nil)
+		tx.CachedViews.Range(func(_, v interface{}) bool {
+			v.(*View).Header[0].Column = name
+			return true
+		})
+		_, err = proc.Execute(verifCtx(), verifC02Hdr[format][2:])
+		_ = proc.AutoRollback()
+		_ = proc.ReleaseResourcesWithErrors()
+		if err != nil {
+			verifAssert("a refused write leaves no table behind", !verifFileExists(file))
+			verifReach("refused")
+			return
+		}
+		tx2 := verifNewTx()
+		tx2.Flags.Quiet = true
+		proc2 := NewProcessor(tx2)
+		_, err = proc2.Execute(ContextForStoringResults(verifCtx()), verifC02HdrSel[format])
+		verifAssert("the written table loads", err == nil && len(tx2.SelectedViews) == 1)
+		if err == nil && len(tx2.SelectedViews) == 1 {
+			v := tx2.SelectedViews[0]
+			verifAssert("same number of fields and records", v.FieldLen() == 2 && v.RecordLen() == 1)
+			if v.FieldLen() == 2 {
+				verifAssert("the column name reads back", v.Header[0].Column == name && v.Header[1].Column == "c2")
+			}
+		}
+		_ = proc2.ReleaseResourcesWithErrors()
+		verifObserve("name-length", int64(n))
+		verifReach("end")
+		return
+	}
+	// (b)
+	verifFileWrite("d.csv", "a,b\r\n1,x\r\n2,y\r\n")
+	c, tc, nc := verifC02Cell("c", 1, 2)
+	tx := verifNewTx()
+	tx.Flags.Quiet = true
+	proc := NewProcessor(tx)
+	verifVar(proc.ReferenceScope, "c", c)
+	_, err := proc.Execute(verifCtx(), verifC02Dialect)
+	_ = proc.AutoRollback()
+	_ = proc.ReleaseResourcesWithErrors()
+	if err != nil {
+		verifAssert("a refused update leaves the file as it was", verifFileRead("d.csv") == "a,b\r\n1,x\r\n2,y\r\n")
+		verifReach("refused")
+		return
+	}
+	got := []byte(verifFileRead("d.csv"))
+	verifAssert("the file still ends with its own line break", len(got) >= 2 && got[len(got)-2] == '\r' && got[len(got)-1] == '\n')
+	tx2 := verifNewTx()
+	tx2.Flags.Quiet = true
+	proc2 := NewProcessor(tx2)
+	_, err = proc2.Execute(ContextForStoringResults(verifCtx()), verifC02DialectSel)
+	verifAssert("the updated table loads", err == nil && len(tx2.SelectedViews) == 1)
+	if err == nil && len(tx2.SelectedViews) == 1 {
+		v := tx2.SelectedViews[0]
+		verifAssert("same records", v.RecordLen() == 2 && v.FieldLen() == 2)
+		if v.RecordLen() == 2 && v.FieldLen() == 2 {
+			p := v.RecordSet[0][1][0]
+			if value.IsNull(p) {
+				verifAssert("the updated cell reads back", nc || tc == "")
+			} else {
+				s, ok := p.(*value.String)
+				verifAssert("the updated cell reads back", ok && ((nc && s.Raw() == "") || (!nc && s.Raw() == tc)))
+			}
+			s2, ok2 := v.RecordSet[1][1][0].(*value.String)
+			verifAssert("the other record is intact", ok2 && s2.Raw() == "y")
+		}
+	}
+	_ = proc2.ReleaseResourcesWithErrors()
+	verifReach("end")
+}
